@@ -11,13 +11,14 @@
 #include <ksi/publicationsfile.h>
 #include <ksi/pkitruststore.h>
 #include "hx.h"
+#include "fault.h"
 
 static KSI_CTX *ctx;
 static KSI_PublicationsFile *loaded;
 
 static KSI_CertConstraint *constraints(char **tok, int n, unsigned char ***keep) {
-	int k = n / 2, i; KSI_CertConstraint *arr = calloc((size_t)k + 1, sizeof(*arr)); unsigned char **bufs = calloc((size_t)k + 1, sizeof(*bufs));
-	for (i = 0; i < k; i++) { size_t l; unsigned char *v = hx_dec(tok[2 * i + 1], &l); char *s = malloc(l + 1); memcpy(s, v, l); s[l] = 0; free(v);
+	int k = n / 2, i; KSI_CertConstraint *arr = H_CALLOC((size_t)k + 1, sizeof(*arr)); unsigned char **bufs = H_CALLOC((size_t)k + 1, sizeof(*bufs));
+	for (i = 0; i < k; i++) { size_t l; unsigned char *v = hx_dec(tok[2 * i + 1], &l); char *s = H_MALLOC(l + 1); memcpy(s, v, l); s[l] = 0; free(v);
 		arr[i].oid = tok[2 * i]; arr[i].val = s; bufs[i] = (unsigned char *)s; }
 	arr[k].oid = NULL; arr[k].val = NULL; *keep = bufs; return arr;
 }
@@ -32,7 +33,7 @@ static void print_rec(KSI_PublicationRecord *pr) {
 }
 
 int main(void) {
-	char *line = NULL; size_t cap = 0; char **tok = malloc(sizeof(char *) * 200);
+	char *line = NULL; size_t cap = 0; char **tok = H_MALLOC(sizeof(char *) * 200);
 	setvbuf(stdout, NULL, _IOFBF, 1 << 16);
 	KSI_CTX_new(&ctx);
 	while (getline(&line, &cap, stdin) > 0) {
@@ -40,6 +41,7 @@ int main(void) {
 		line[strcspn(line, "\n")] = 0;
 		n = hx_split(line, tok, 200);
 		if (n == 0) continue;
+		if (fault_cmd(tok, n)) { fflush(stdout); continue; }
 		if (!strcmp(tok[0], "CTX")) {
 			KSI_PKITruststore *pki = NULL; int rc;
 			KSI_PublicationsFile_free(loaded); loaded = NULL; KSI_CTX_free(ctx); ctx = NULL;
@@ -75,7 +77,7 @@ int main(void) {
 			if (!strcmp(tok[0], "QF")) {       /* QF <fileHex> <query...>: self-contained variant */
 				size_t l; unsigned char *b = hx_dec(tok[1], &l); KSI_PublicationsFile_free(loaded); loaded = NULL;
 				rc = KSI_PublicationsFile_parse(ctx, b, l, &loaded); free(b);
-				if (rc != KSI_OK) { printf("R q load=0x%x\n", rc); continue; }
+				if (rc != KSI_OK) { printf("R q load=0x%x\n", rc); fflush(stdout); continue; }
 				tk = tok + 1; n--;
 			}
 			if (n > 2 && strcmp(tk[2], "-") && strcmp(tk[1], "cert") && strcmp(tk[1], "pubstr")) KSI_Integer_new(ctx, strtoull(tk[2], NULL, 10), &t);
